@@ -6,7 +6,7 @@ and separate_out(energy_balance=True) calls and around H / h / S assignments; ba
 import numpy as np
 import thermosteam as tmo
 from vt.core import case_hash
-from vt.common import thermo_of
+from vt.common import thermo_of, SA
 
 PID = 'C02'
 RULE = ('1-4 non-empty inlets (single-inlet path is its own clause), liquid and gas, T inside the model range (liquids 260-440 K, gases 280-500 K), P 1e4-1e7 Pa, heat input Q = 0 / +-(up to 30 K)*sum(C) given as a number '
@@ -15,9 +15,17 @@ RULE = ('1-4 non-empty inlets (single-inlet path is its own clause), liquid and 
         'non-trivial = >=2 chemicals and (inlet temperatures spread >=5 K or Q != 0), or a target >=1 K away; distinct = hash of the case. Second generation (appended cases): inlet phases drawn '
         'independently (liquid+gas mixes), multi-phase (g,l) inlets and receivers, receivers of any phase/T/P with stale content, the receiver at any position / twice among the inlets, Q split over Q= and 0-3 heat objects, '
         'None among the inlets, conserve_phases=True, Stream.sum / a+b / 0+a / a+=b / a-=b forms, separate_out of a stream in another phase / multi-phase / the stream itself / an empty stream, Hnet assignment, targets at the '
-        'very ends of the range, multi-phase streams over g/l/L holding an empty phase, one non-empty phase or a single phase')
+        'very ends of the range, multi-phase streams over g/l/L holding an empty phase, one non-empty phase or a single phase. Oracle audit 2: every H / h / Hnet / S / C read through a stream is judged against the '
+        'molar-weighted sum of the chemicals\' own models over the raw rows (clause reading); the temperature after an assignment is judged against the temperature at which that reference takes the assigned value; '
+        'non-empty inlets, the lowest pressure and every outside-the-model-range refusal are decided from the case description (and the raw rows of the result), never from isempty() or the temperature a call produced: '
+        'a result outside the window whose content takes the expected enthalpy inside it is a violation (T-far-off); entropy clauses are refused exactly when liquid material is present (frozen table)')
 MIN_NONTRIVIAL = {'quick': 400, 'thorough': 10000}
-ASSUMPTIONS = ['bound 1e-5 K times the heat-capacity flow of the result (the solver tolerance is 1e-6 K)', 'ill-conditioned external heat-capacity integrals are excluded from the entropy clauses and reported as not judged']
+ASSUMPTIONS = ['bound 1e-5 K times the heat-capacity flow of the result (the solver tolerance is 1e-6 K)', 'ill-conditioned external heat-capacity integrals are excluded from the entropy clauses and reported as not judged',
+               'the property package is the ideal mixture without excess energies: the enthalpy / heat-capacity flow of a stream is the molar-weighted sum of Chemical.H / .Cn over its rows (tolerance 1e-13 of the sum of absolute terms, worst seen 6.6e-16); '
+               'the entropy flow is that sum of Chemical.S plus a mixing term that does not depend on T and is 0 when no phase holds two chemicals (its formula is not judged here)',
+               'the liquid heat-capacity models of the six chemicals (external HEOS_FIT polynomials) integrate over T with a quantisation of 2.4e-4 J/mol/K at every temperature, every gas model integrates consistently: entropy clauses are judged for gas-only content; '
+               'a gas model failing the live conditioning probe makes the run inconclusive (harness error), it is not a refusal',
+               'temperature expectation after an assignment: 1e-5 K (worst seen 1.4e-10 K)']
 IDS = ('Water', 'Ethanol', 'Methanol', 'Octane', 'Acetone', 'Toluene')
 
 
@@ -25,7 +33,9 @@ def required(tier):
     return ['set-zero', 'mix-zero', 'mix', 'mix:single-inlet', 'mix:Q', 'mix:heat-object', 'mix:pressure', 'separate', 'set-H', 'set-h', 'set-S', 'set-current', 'multi-phase',
             'mix2:liquid+gas', 'mix2:multi-phase-inlet', 'mix2:multi-phase-receiver', 'mix2:stale-receiver', 'mix2:receiver-not-first-or-twice', 'mix2:conserve_phases', 'mix2:several-heat-objects',
             'mix2:Q-number-and-heat-objects', 'mix2:Q-with-only-the-receiver', 'mix2:form-sum', 'mix2:form-add', 'mix2:form-iadd', 'sep2:other-in-another-phase', 'sep2:multi-phase', 'sep2:self',
-            'sep2:empty-other', 'sep2:isub', 'sep2:same-T-P', 'set-Hnet', 'set2:target-at-end-of-range', 'multi-phase2:empty-phase', 'multi-phase2:one-non-empty-phase', 'multi-phase2:one-phase', 'multi-phase2:L']
+            'sep2:empty-other', 'sep2:isub', 'sep2:same-T-P', 'set-Hnet', 'set2:target-at-end-of-range', 'multi-phase2:empty-phase', 'multi-phase2:one-non-empty-phase', 'multi-phase2:one-phase', 'multi-phase2:L',
+            # oracle audit 2: readings judged against the chemicals' own models, temperature expectations, outside-the-range decided from the inputs, entropy clauses judged
+            'reading', 'set:T-expected', 'mix:judged/reachable-by-the-inputs', 'mix2:judged/reachable-by-the-inputs', 'separate:judged/reachable-by-the-inputs', 'sep2', 'set-S:judged-gas-only']
 
 
 class Heat:
@@ -78,8 +88,157 @@ def mk(th, d):
     return s
 
 
+# ---------------------------------------------------------------------------------------------------------------------
+# independent reference (oracle audit 2, item 1): the enthalpy / heat-capacity / entropy flow of a stream is the molar-weighted sum of the chemicals' OWN
+# models (model data: Chemical.H / .Cn / .S handles) over the RAW sparse rows of the stream - not read through Stream._get_property / Mixture.H / .xH /
+# the mixture models / the property cache, which is the chain mix_from sums, separate_out subtracts and the temperature solvers iterate on. The package
+# used here is the ideal mixture without excess energies, for which this sum IS the definition (agreement on the unchanged library: 6e-16 of sum |terms|).
+
+REF_RTOL = 1e-13          # of the sum of the absolute terms (worst observed 6.6e-16 over 1.4 million readings)
+T_TOL = 1e-5              # K: temperature after an assignment against the temperature at which the reference takes the assigned value (solver tolerance 1e-6 K)
+_F = {'H': lambda c, ph, T, P: c.H(ph, T, P), 'C': lambda c, ph, T, P: c.Cn(ph, T), 'S': lambda c, ph, T, P: c.S(ph, T, P), 'Hf': lambda c, ph, T, P: c.Hf}
+
+
+def rows_of(s):
+    """[(phase label, {chemical index: flow})] from the raw sparse rows (not through isempty() / imol views / mol)"""
+    data = s.imol.data
+    if isinstance(data, SA): return [(ph, {i: v for i, v in r.dct.items() if v}) for ph, r in zip(s.phases, data.rows)]
+    return [(s.phase, {i: v for i, v in data.dct.items() if v})]
+
+
+def rows_d(d):
+    """the same from a case description (first-generation descriptions carry no 'kind')"""
+    if d.get('kind', 'S') == 'S': return [(d['phase'], {i: v for i, v in enumerate(d['flows']) if v})]
+    return [(ph, {i: v for i, v in enumerate(d[ph]) if v}) for ph in 'gl']
+
+
+def div(a, b):
+    """a / b for messages and residuals; a heat-capacity flow of 0 (a result that holds nothing) must not turn a violation into a harness error"""
+    return a / b if b else float('inf')
+
+
+def held(rows):
+    return any(row for _, row in rows)
+
+
+def total(rows):
+    return sum(v for _, row in rows for v in row.values())
+
+
+def ref(th, rows, T, P, what):
+    """(value, sum of absolute terms) of sum_phase sum_i n[phase, i] * chemical_i.<what>(phase, T, P); entropy: without the (temperature-independent) mixing term"""
+    f = _F[what]; chems = th.chemicals.tuple
+    tot = sc = 0.
+    for ph, row in rows:
+        for i, n in row.items():
+            v = n * f(chems[i], ph, T, P); tot += v; sc += abs(v)
+    return tot, sc
+
+
+def ref_of(th, rows, T, P, which, M0=0.):
+    """reference for the stream attribute `which` in (H, h, Hnet, C, Cn, S)"""
+    if which in ('H', 'h', 'Hnet'):
+        r, sc = ref(th, rows, T, P, 'H')
+        if which == 'Hnet':
+            f, fs = ref(th, rows, T, P, 'Hf'); r += f; sc += fs
+        if which == 'h' and held(rows): n = total(rows); r /= n; sc /= n
+    elif which in ('C', 'Cn'):
+        r, sc = ref(th, rows, T, P, 'C')
+        if which == 'Cn' and held(rows): n = total(rows); r /= n; sc /= n
+    else:
+        r, sc = ref(th, rows, T, P, 'S'); r += M0; sc += abs(M0)
+    return r, sc
+
+
+def rd(rec, th, s, which, where, ctx=None):
+    """read an attribute through the stream (what the user sees, and what the balances below are evaluated on) and judge it against the reference at the
+    stream's raw rows, T and P. Entropy: the mixing term is not modelled here (its formula is another property's matter); it is taken from the first reading
+    of the stream in this case and must be the same at every other temperature (it is exactly 0 when no phase holds more than one chemical)."""
+    val = getattr(s, which)
+    rows = rows_of(s)
+    kind = 'multi-phase' if isinstance(s, tmo.MultiStream) else 'single-phase'
+    M0 = 0.
+    if which == 'S' and any(len(row) > 1 for _, row in rows):
+        key = ('M0', id(s))
+        if ctx is None or key not in ctx:
+            if ctx is not None: ctx[key] = val - ref(th, rows, s.T, s.P, 'S')[0]
+            rec.hit('reading:S-mixing-term-taken')
+            return val
+        M0 = ctx[key]
+    r, sc = ref_of(th, rows, s.T, s.P, which, M0)
+    good = val is not None and val == val and abs(val - r) <= REF_RTOL * sc + 1e-300
+    rec.check(good, 'reading', f'{which}/{kind}/{where}', f'{which} of a {kind} stream ({where}) reads {val!r}; the molar-weighted sum of the chemicals\' own models over its rows '
+              f'{[(ph, sorted(row.items())) for ph, row in rows]} at T={s.T!r}, P={s.P!r} is {r!r} (sum of absolute terms {sc:.6g})', residual=abs(val - r) / sc if good and sc else None)
+    return val
+
+
+def T_expected(th, rows, P, which, target, lo, hi, M0=0.):
+    """temperature in [lo-2, hi+2] at which the reference takes the value `target` (H, h, Hnet and S increase with T); None when the reference does not bracket it"""
+    from scipy.optimize import brentq
+    f = lambda T: ref_of(th, rows, T, P, which, M0)[0] - target
+    fa, fb = f(lo - 2.), f(hi + 2.)
+    if not (fa <= 0 <= fb): return None
+    if fa == 0: return lo - 2.
+    if fb == 0: return hi + 2.
+    return brentq(f, lo - 2., hi + 2., xtol=1e-10, rtol=1e-15)
+
+
+def judge_T(rec, th, rows, s, which, target, lo, hi, suffix, ctx=None):
+    """independent expectation for the temperature after an assignment (oracle audit 2, item 3)"""
+    M0 = 0.
+    if which == 'S' and any(len(row) > 1 for _, row in rows):
+        M0 = (ctx or {}).get(('M0', id(s)))
+        if M0 is None: rec.refuse('entropy mixing term not available: temperature expectation not judged'); return
+    Te = T_expected(th, rows, s.P, which, target, lo, hi, M0)
+    if Te is None:
+        rec.check(False, 'set-' + which, 'target-not-bracketed-by-the-reference' + suffix, f'{which} target {target!r} lies between the stream\'s readings at {lo} and {hi} K but not between the reference values at {lo - 2} and {hi + 2} K')
+        return
+    rec.check(abs(s.T - Te) <= T_TOL, 'set-' + which, 'T-expected' + suffix, f'{which} = {target!r}: T is {s.T!r}; the chemicals\' own models take this value at T = {Te!r} (difference {s.T - Te:.3g} K)', residual=abs(s.T - Te))
+    rec.hit('set:T-expected')
+
+
+# entropy clauses (oracle audit 2, item 4): the refusal is decided from the INPUTS. Frozen from the pristine data package: the liquid heat capacities of all six
+# chemicals are HEOS_FIT polynomials whose integral over T (external package) cancels catastrophically (quantised at 2.4e-4 J/mol/K: finite differences of the
+# integral are off by O(1)), at every temperature; every gas model integrates consistently at every temperature of the range. So 'liquid material present' is the
+# refusal, and a gas model failing the live probe (or the probe raising) is not a refusal: it ends the case as a harness error (inconclusive) or a reported exception.
+ILL_CONDITIONED = frozenset((i, 'l') for i in IDS)
+_probe_cache = {}
+
+
+def probe(c, ph, T, h=1e-3):
+    """does the heat-capacity model of (chemical, phase) integrate consistently around T and from 298.15 K? (same arithmetic as c07.well_conditioned, no try/except)"""
+    key = (c.ID, ph, T)
+    ok = _probe_cache.get(key)
+    if ok is None:
+        model = getattr(c.Cn, ph)
+        a = model.T_dependent_property_integral(T - h, T + h) / (2 * h)
+        b = model.T_dependent_property_integral_over_T(T - h, T + h) / (2 * h)
+        v = model(T)
+        a2 = (model.T_dependent_property_integral(298.15, T + h) - model.T_dependent_property_integral(298.15, T - h)) / (2 * h)
+        b2 = (model.T_dependent_property_integral_over_T(298.15, T + h) - model.T_dependent_property_integral_over_T(298.15, T - h)) / (2 * h)
+        ok = _probe_cache[key] = all(abs(p - q) <= 1e-6 * abs(q) for p, q in ((a, v), (a2, v), (b, v / T), (b2, v / T)))
+    return ok
+
+
+class ProbeMismatch(Exception):
+    """raised by the harness (no library frame): the run is inconclusive"""
+
+
+def s_judged(rec, th, rows, T):
+    """True: judge the entropy clauses of a stream with these rows; False: refusal (liquid material present, see ILL_CONDITIONED)"""
+    chems = th.chemicals.tuple
+    if any((chems[i].ID, ph.lower()) in ILL_CONDITIONED for ph, row in rows for i in row):
+        rec.hit('set-S:refused-liquid-present'); return False
+    for ph, row in rows:
+        for i in row:
+            if not probe(chems[i], ph.lower(), T):
+                raise ProbeMismatch(f'the heat-capacity model of {chems[i].ID} ({ph}) fails the conditioning probe at {T} K although the frozen table lists it as well-conditioned')
+    rec.hit('set-S:judged-gas-only')
+    return True
+
+
 def s_ok(s):
-    """entropy of this stream is computed from well-conditioned heat-capacity integrals only"""
+    """entropy of this stream is computed from well-conditioned heat-capacity integrals only (first form of the probe; kept for comparison runs, no longer used by the clauses)"""
     from vt.workloads.c07 import well_conditioned
     phases = s.phases if isinstance(s, tmo.MultiStream) else (s.phase,)
     for ph in phases:
@@ -94,16 +253,18 @@ def run_case(case, rec):
     th = thermo_of(IDS)
     tmo.settings.set_thermo(th)
     t = case['t']
+    R = lambda s, which, where, ctx=None: rd(rec, th, s, which, where, ctx)
     try:
         if t == 'mix':
             ins = [mk(th, d) for d in case['inlets']]
-            nonempty = [s for s in ins if not s.isempty()]
+            live = [(s, d) for s, d in zip(ins, case['inlets']) if any(d['flows'])]       # non-empty by the case description, not by the library's isempty() (the filter mix_from itself applies)
+            nonempty = [s for s, d in live]
             phase = case['inlets'][0]['phase']
             recv = ins[0] if case['recv_in'] else tmo.Stream(None, phase=phase, thermo=th)
-            Hin = sum(s.H for s in nonempty); Cin = sum(s.C for s in nonempty)
+            Hin = sum(R(s, 'H', 'mix-inlet') for s in nonempty); Cin = sum(R(s, 'C', 'mix-inlet') for s in nonempty)
             Q = case['qK'] * Cin
-            Pmin = min(s.P for s in nonempty)
-            Ts = [s.T for s in nonempty]
+            Pmin = min(d['P'] for s, d in live)
+            Ts = [d['T'] for s, d in live]
             others = list(ins)
             kw = {}
             if Q:
@@ -111,68 +272,92 @@ def run_case(case, rec):
                 else: kw['Q'] = Q
                 rec.hit('mix:Q')
             recv.mix_from(others, energy_balance=True, **kw)
-            Hout = recv.H; Cout = recv.C
+            Hout = R(recv, 'H', 'mix-receiver'); Cout = R(recv, 'C', 'mix-receiver')
             lo, hi = Trange(phase)
-            if not (lo - 40 < recv.T < hi + 60): rec.refuse('mixed temperature outside the model range'); return
             tag = ('single-inlet' if len(nonempty) == 1 else 'multi-inlet') + ('/Q' if Q else '') + ('/heat-object' if Q and case['heat_obj'] else '') + ('/receiver-among-inlets' if case['recv_in'] else '')
+            # outside the quantifier (result outside the model range) is decided from the INPUTS: the expected content (sum of the described flows, in the common phase) takes
+            # the enthalpy sum H in + Q inside the window or not. Inlets are inside [lo+5, hi-5] and |Q| <= 30 K * C, so this is always so here: a result outside IS the violation
+            comp = {}
+            for s, d in live:
+                for i, v in enumerate(d['flows']):
+                    if v: comp[i] = comp.get(i, 0.) + v
+            reachable = ref(th, [(phase, comp)], lo - 40, Pmin, 'H')[0] < Hin + Q < ref(th, [(phase, comp)], hi + 60, Pmin, 'H')[0]
+            if not (lo - 40 < recv.T < hi + 60):
+                if not reachable: rec.refuse('mixed temperature outside the model range'); return
+                rec.check(False, 'mix', f'T-far-off/{tag}', f'mix_from: T out {recv.T!r} is outside ({lo - 40}, {hi + 60}) although the described content takes H in + Q = {Hin + Q!r} inside this window (T in {Ts}, Q {Q!r})')
+                return
+            rec.hit('mix:judged' + ('/reachable-by-the-inputs' if reachable else '/not-reachable-but-T-inside'))
             res = abs(Hout - (Hin + Q))
-            rec.check(res <= 1e-5 * Cout, 'mix', f'enthalpy/{tag}', f'mix_from: H out {Hout!r} != sum H in {Hin!r} + Q {Q!r} (residual {res:.4g} kJ/hr = {res / Cout:.3g} K * C; T in {Ts}, T out {recv.T})', residual=res / Cout)
+            rec.check(res <= 1e-5 * Cout, 'mix', f'enthalpy/{tag}', f'mix_from: H out {Hout!r} != sum H in {Hin!r} + Q {Q!r} (residual {res:.4g} kJ/hr = {div(res, Cout):.3g} K * C; T in {Ts}, T out {recv.T})', residual=div(res, Cout))
             rec.check(recv.P == Pmin, 'mix:pressure', tag, f'mix_from: P out {recv.P!r} != lowest pressure among the non-empty inlets {Pmin!r}')
             if len(nonempty) == 1: rec.hit('mix:single-inlet')
             # the inlets (other than the receiver) still report their own enthalpy and temperature, also when read again after the mix ...
             for s_in, d in zip(ins, case['inlets']):
-                if s_in is recv or s_in.isempty(): continue
+                if s_in is recv or not any(d['flows']): continue
                 tw = mk(th, d)
-                rec.check(s_in.T == d['T'] and abs(s_in.H - tw.H) <= 1e-9 * abs(tw.H) + 1e-9, 'mix', f'inlet-changed/{tag}',
-                          f'after mix_from an inlet reports H={s_in.H!r}, T={s_in.T!r}; a fresh stream in the same state has H={tw.H!r}, T={d["T"]}')
+                Hi = R(s_in, 'H', 'mix-inlet-after'); Ht = R(tw, 'H', 'fresh-twin')
+                rec.check(s_in.T == d['T'] and abs(Hi - Ht) <= 1e-9 * abs(Ht) + 1e-9, 'mix', f'inlet-changed/{tag}',
+                          f'after mix_from an inlet reports H={Hi!r}, T={s_in.T!r}; a fresh stream in the same state has H={Ht!r}, T={d["T"]}')
             # ... and the unit can be run again on the same objects (outlets are re-used between runs)
             if not case['recv_in']:
                 recv.mix_from(others, energy_balance=True, **kw)
-                H2 = recv.H
-                Hin2 = sum(mk(th, d).H for d in case['inlets'] if any(d['flows']))
-                rec.check(abs(H2 - (Hin2 + Q)) <= 1e-5 * recv.C, 'mix', f'second-run/{tag}', f'second mix_from on the same objects: H out {H2!r} != sum H in {Hin2!r} + Q {Q!r} (first run gave {Hout!r})',
-                          residual=abs(H2 - (Hin2 + Q)) / recv.C)
+                H2 = R(recv, 'H', 'mix-receiver-second-run'); C2 = R(recv, 'C', 'mix-receiver-second-run')
+                Hin2 = sum(R(mk(th, d), 'H', 'fresh-twin') for d in case['inlets'] if any(d['flows']))
+                rec.check(abs(H2 - (Hin2 + Q)) <= 1e-5 * C2, 'mix', f'second-run/{tag}', f'second mix_from on the same objects: H out {H2!r} != sum H in {Hin2!r} + Q {Q!r} (first run gave {Hout!r})',
+                          residual=div(abs(H2 - (Hin2 + Q)), C2))
                 # assigning an inlet its own enthalpy leaves its temperature alone
                 for s_in, d in zip(ins, case['inlets']):
-                    if s_in.isempty(): continue
-                    s_in.H = s_in.H
+                    if not any(d['flows']): continue
+                    s_in.H = R(s_in, 'H', 'mix-inlet-after')
                     rec.check(abs(s_in.T - d['T']) <= 1e-6, 'set-current', 'inlet-after-mix', f'after mixing, assigning an inlet its own H moved its T from {d["T"]} to {s_in.T!r}')
-            nchem = int((recv.mol.to_array() > 0).sum())
+            nchem = len(comp)
             if nchem >= 2 and (max(Ts) - min(Ts) >= 5 or Q): rec.mark_nontrivial(case_hash(case))
         elif t == 'sep':
             a = mk(th, case['a']); b = mk(th, case['b'])
             m = tmo.Stream(None, phase=a.phase, thermo=th)
             m.mix_from([a, b], energy_balance=True)
             lo, hi = Trange(a.phase)
-            H0 = m.H; Hb = b.H
+            H0 = R(m, 'H', 'separate-mixture'); Hb = R(b, 'H', 'separate-other')
             m.separate_out(b, energy_balance=True)
-            if m.isempty(): rec.refuse('nothing left after separation'); return
-            H1 = m.H; C1 = m.C
-            if not (lo - 60 < m.T < hi + 80): rec.refuse('temperature after separation outside the model range'); return
+            # a holds material (>= 0.01 of a chemical, b <= 1000 of it): what remains is a's content and cannot be nothing
+            if not rec.check(held(rows_of(m)), 'separate', 'nothing-left', f'separate_out with energy balance: nothing is left of a mixture of a ({case["a"]["flows"]}) and b after b is taken out'): return
+            H1 = R(m, 'H', 'separate-remainder'); C1 = R(m, 'C', 'separate-remainder')
+            # outside the quantifier is decided from the INPUTS: a's described content takes H before - H other inside the window or not (it does whenever the mixture held H a + H b: a is inside [lo+5, hi-5])
+            ra = rows_d(case['a'])
+            reachable = ref(th, ra, lo - 60, m.P, 'H')[0] < H0 - Hb < ref(th, ra, hi + 80, m.P, 'H')[0]
+            if not (lo - 60 < m.T < hi + 80):
+                if not reachable: rec.refuse('temperature after separation outside the model range'); return
+                rec.check(False, 'separate', 'T-far-off', f'separate_out: T after {m.T!r} is outside ({lo - 60}, {hi + 80}) although a\'s content takes H before - H other = {H0 - Hb!r} inside this window')
+                return
+            rec.hit('separate:judged' + ('/reachable-by-the-inputs' if reachable else '/not-reachable-but-T-inside'))
             res = abs(H1 - (H0 - Hb))
-            rec.check(res <= 1e-5 * C1 + 1e-12 * abs(H0), 'separate', 'enthalpy', f'separate_out: H after {H1!r} != H before {H0!r} - H other {Hb!r} (residual {res:.4g}, C {C1:.4g})', residual=res / C1)
+            rec.check(res <= 1e-5 * C1 + 1e-12 * abs(H0), 'separate', 'enthalpy', f'separate_out: H after {H1!r} != H before {H0!r} - H other {Hb!r} (residual {res:.4g}, C {C1:.4g})', residual=div(res, C1))
             rec.mark_nontrivial(case_hash(case))
         elif t == 'set':
             s = mk(th, case['s']); which = case['which']; phase = s.phase
             lo, hi = Trange(phase)
-            if which == 'S' and not s_ok(s): rec.refuse('ill-conditioned external heat-capacity integral: entropy clause not judged'); return
+            rows = rows_d(case['s']); ctx = {}
+            if which == 'S':
+                rec.hit('set-S:cases')
+                if not s_judged(rec, th, rows, case['s']['T']): rec.refuse('ill-conditioned external heat-capacity integral: entropy clause not judged'); return
             T0 = s.T
             def at(T):
-                s.T = T; return getattr(s, which)
+                s.T = T; return R(s, which, 'at-a-given-T', ctx)
             vlo, vhi = at(lo), at(hi); s.T = T0
-            cur = getattr(s, which)
+            cur = R(s, which, 'at-a-given-T', ctx)
             if case['current']:
                 setattr(s, which, cur)
                 rec.check(abs(s.T - T0) <= 1e-6 and s.phase == phase, 'set-current', which, f'assigning the current {which} moved T by {s.T - T0!r} (phase {s.phase})', residual=abs(s.T - T0))
                 return
             target = vlo + case['f'] * (vhi - vlo)
             setattr(s, which, target)
-            back = getattr(s, which)
-            C = s.C if which != 'h' else s.Cn
+            back = R(s, which, 'after-assignment', ctx)
+            C = R(s, 'C', 'after-assignment') if which != 'h' else R(s, 'Cn', 'after-assignment')
             bound = 1e-5 * C if which in ('H', 'h') else 1e-5 * C / s.T
             rec.check(abs(back - target) <= bound, 'set-' + which, 'read-back', f'{which} = {target!r} then reading gives {back!r} (T {T0} -> {s.T}; bound {bound:.3g})', residual=abs(back - target) / max(bound / 1e-5, 1e-300))
             rec.check(s.phase == phase, 'set-' + which, 'phase-changed', f'{which} assignment inside the single-phase range changed the phase label {phase} -> {s.phase}')
             rec.check(lo - 1e-3 <= s.T <= hi + 1e-3, 'set-' + which, 'T-range', f'{which} target between the end values gave T={s.T} outside [{lo},{hi}]')
+            judge_T(rec, th, rows, s, which, target, lo, hi, '', ctx)
             if abs(s.T - T0) >= 1: rec.mark_nontrivial(case_hash(case))
         else:
             d = case['s']; which = case['which']
@@ -181,20 +366,24 @@ def run_case(case, rec):
                 for i, v in zip(IDS, d[ph]):
                     if v: s.imol[ph, i] = v
             rec.hit('multi-phase')
-            if which == 'S' and not s_ok(s): rec.refuse('ill-conditioned external heat-capacity integral: entropy clause not judged'); return
+            rows = rows_d(dict(d, kind='M')); ctx = {}
+            if which == 'S':
+                rec.hit('set-S:cases')
+                if not s_judged(rec, th, rows, d['T']): rec.refuse('ill-conditioned external heat-capacity integral: entropy clause not judged'); return
             T0 = s.T
-            cur = getattr(s, which)
+            cur = R(s, which, 'at-a-given-T', ctx)
             if case['current']:
                 setattr(s, which, cur)
                 rec.check(abs(s.T - T0) <= 1e-6, 'set-current', which + '/multi', f'assigning the current {which} of a multi-phase stream moved T by {s.T - T0!r}', residual=abs(s.T - T0))
                 return
-            s.T = T0 + case['dT']; target = getattr(s, which); s.T = T0
+            s.T = T0 + case['dT']; target = R(s, which, 'at-a-given-T', ctx); s.T = T0
             setattr(s, which, target)
-            back = getattr(s, which)
-            C = s.C if which != 'h' else s.C / s.F_mol
+            back = R(s, which, 'after-assignment', ctx)
+            C = R(s, 'C', 'after-assignment') if which != 'h' else R(s, 'C', 'after-assignment') / total(rows)
             bound = 1e-5 * C if which in ('H', 'h') else 1e-5 * C / s.T
             rec.check(abs(back - target) <= bound, 'set-' + which, 'read-back/multi', f'multi-phase {which} = {target!r} then reading gives {back!r} (T {T0} -> {s.T})', residual=abs(back - target) / max(bound / 1e-5, 1e-300))
             rec.check(abs(s.T - (T0 + case['dT'])) <= 1e-4, 'set-' + which, 'T/multi', f'multi-phase {which} assignment: T {s.T} expected {T0 + case["dT"]}')
+            judge_T(rec, th, rows, s, which, target, T0 - 27, T0 + 27, '/multi', ctx)
             if abs(case['dT']) >= 1: rec.mark_nontrivial(case_hash(case))
     except Exception as e:
         rec.exception(t, e, what=f'{t} case raised {type(e).__name__}: {str(e)[:160]}')
@@ -297,17 +486,22 @@ def phases_of(s):
     return tuple(s.phases) if isinstance(s, tmo.MultiStream) else (s.phase,)
 
 
-def range_of(s):
-    """temperature window in which every phase that holds material is inside its model range"""
+def range_rows(rows):
+    """temperature window in which every phase that holds material (by the raw rows) is inside its model range"""
     lo, hi = 250., 520.
-    for ph in phases_of(s):
-        if isinstance(s, tmo.MultiStream) and not s.imol[ph].any(): continue
+    for ph, row in rows:
+        if not row: continue
         l, h = Trange(ph.lower())
         lo, hi = max(lo, l), min(hi, h)
     return lo, hi
 
 
+def range_of(s):
+    return range_rows(rows_of(s))
+
+
 def s_ok2(s):
+    """first form of the probe (kept for comparison runs, no longer used by the clauses)"""
     from vt.workloads.c07 import well_conditioned
     for ph in phases_of(s):
         flows = s.imol[ph] if isinstance(s, tmo.MultiStream) else s.mol
@@ -321,9 +515,11 @@ def run_case2(case, rec):
     th = thermo_of(IDS)
     tmo.settings.set_thermo(th)
     t = case['t']
+    R = lambda s, which, where, ctx=None: rd(rec, th, s, which, where, ctx)
     try:
         if t == 'mix2':
             ins = [mk2(th, d) for d in case['inlets']]
+            desc = {id(s): d for s, d in zip(ins, case['inlets'])}
             rc = case['recv']; form = case['form']
             others = list(ins)
             recv_in = False
@@ -343,12 +539,12 @@ def run_case2(case, rec):
                             else: recv.imol[rc['phase'], i] = v
             if form == 'iadd': others = [recv] + [o for o in ins if o is not recv][:1]
             if form == 'add': others = ins[:2]
-            streams = [o for o in others if not o.isempty()]
+            streams = [o for o in others if nonempty_d(desc[id(o)])]          # non-empty by the case description, not by the library's isempty() (the filter mix_from itself applies)
             if not streams: rec.refuse('no non-empty inlet'); return
-            Hin = sum(o.H for o in streams); Cin = sum(o.C for o in streams)
+            Hin = sum(R(o, 'H', 'mix-inlet') for o in streams); Cin = sum(R(o, 'C', 'mix-inlet') for o in streams)
             Q = case['qK'] * Cin
-            Pmin = min(o.P for o in streams)
-            Ts = [o.T for o in streams]
+            Pmin = min(desc[id(o)]['P'] for o in streams)
+            Ts = [desc[id(o)]['T'] for o in streams]
             kw = {}
             args = list(others)
             if form == 'mix_from':
@@ -369,33 +565,43 @@ def run_case2(case, rec):
                 if case['conserve']: kw['conserve_phases'] = True
             else:
                 Q = 0.0
-            in_phases = {p.lower() for o in streams for p in phases_of(o) if not isinstance(o, tmo.MultiStream) or o.imol[p].any()}
+            in_phases = {ph.lower() for o in streams for ph, row in rows_d(desc[id(o)]) if row}
             if form == 'mix_from': recv.mix_from(args, energy_balance=True, **kw)
             elif form == 'sum': recv = tmo.Stream.sum(args, None, th)
             elif form == 'add': recv = (args[0] + args[1]) if len(args) > 1 else sum(args)      # one operand: 0 + a (__radd__)
             else: recv += args[1] if len(args) > 1 else args[0]
             if form == 'iadd' and len(args) == 1:
                 Hin = 2 * Hin        # a += a mixes the stream with itself
-            Hout = recv.H; Cout = recv.C
-            lo, hi = range_of(recv)
-            if not (lo - 40 < recv.T < hi + 60): rec.refuse('mixed temperature outside the model range'); return
-            multi_in = any(isinstance(o, tmo.MultiStream) for o in streams)
+            Hout = R(recv, 'H', 'mix-receiver'); Cout = R(recv, 'C', 'mix-receiver')
+            rrows = rows_of(recv)
+            lo, hi = range_rows(rrows)
+            multi_in = any(desc[id(o)]['kind'] == 'M' for o in streams)
             tag = form + ('/single-inlet' if len(streams) == 1 else '/multi-inlet') + ('/liquid+gas' if len(in_phases) > 1 else '') + ('/multi-phase-inlet' if multi_in else '') + \
                   ('/multi-phase-receiver' if rc and rc.get('kind') == 'M' else '') + ('/Q' if Q else '') + ('/receiver-among-inlets' if recv_in else '') + ('/conserve_phases' if kw.get('conserve_phases') else '')
+            # outside the quantifier (result outside the model range of the phases the material is held in) is decided from the INPUTS and the placement of the material (raw rows;
+            # the material ledger is another property's matter), never from the temperature the call produced: the content takes H in + Q inside the window or it does not
+            reachable = held(rrows) and ref(th, rrows, lo - 40, Pmin, 'H')[0] < Hin + Q < ref(th, rrows, hi + 60, Pmin, 'H')[0]
+            if not (lo - 40 < recv.T < hi + 60):
+                if not reachable: rec.refuse('mixed temperature outside the model range'); return
+                rec.check(False, 'mix', f'T-far-off/{tag}', f'{form}: T out {recv.T!r} is outside ({lo - 40}, {hi + 60}) although the content of the result {[(ph, sorted(r.items())) for ph, r in rrows]} takes '
+                          f'H in + Q = {Hin + Q!r} inside this window (T in {Ts}, Q {Q!r})')
+                return
+            rec.hit('mix2:judged' + ('/reachable-by-the-inputs' if reachable else '/not-reachable-but-T-inside'))
             res = abs(Hout - (Hin + Q))
-            rec.check(res <= 1e-5 * Cout, 'mix', f'enthalpy/{tag}', f'{form}: H out {Hout!r} != sum H in {Hin!r} + Q {Q!r} (residual {res:.4g} kJ/hr = {res / Cout:.3g} K * C; T in {Ts}, T out {recv.T}, result {type(recv).__name__} {phases_of(recv)})', residual=res / Cout)
+            rec.check(res <= 1e-5 * Cout, 'mix', f'enthalpy/{tag}', f'{form}: H out {Hout!r} != sum H in {Hin!r} + Q {Q!r} (residual {res:.4g} kJ/hr = {div(res, Cout):.3g} K * C; T in {Ts}, T out {recv.T}, result {type(recv).__name__} {phases_of(recv)})', residual=div(res, Cout))
             rec.check(recv.P == Pmin, 'mix:pressure', tag, f'{form}: P out {recv.P!r} != lowest pressure among the non-empty inlets {Pmin!r}')
             for s_in, d in zip(ins, case['inlets']):
-                if s_in is recv or s_in.isempty() or not any(s_in is o for o in others): continue
+                if s_in is recv or not nonempty_d(d) or not any(s_in is o for o in others): continue
                 tw = mk2(th, d)
-                rec.check(s_in.T == d['T'] and abs(s_in.H - tw.H) <= 1e-9 * abs(tw.H) + 1e-9, 'mix', f'inlet-changed/{tag}',
-                          f'after {form} an inlet reports H={s_in.H!r}, T={s_in.T!r}; a fresh stream in the same state has H={tw.H!r}, T={d["T"]}')
+                Hi = R(s_in, 'H', 'mix-inlet-after'); Ht = R(tw, 'H', 'fresh-twin')
+                rec.check(s_in.T == d['T'] and abs(Hi - Ht) <= 1e-9 * abs(Ht) + 1e-9, 'mix', f'inlet-changed/{tag}',
+                          f'after {form} an inlet reports H={Hi!r}, T={s_in.T!r}; a fresh stream in the same state has H={Ht!r}, T={d["T"]}')
             if form == 'mix_from' and not recv_in:
                 # the unit is run again on the same objects: the receiver now holds the first result (possibly in another phase / as a multi-phase stream)
                 recv.mix_from(args, energy_balance=True, **kw)
-                H2 = recv.H
-                rec.check(abs(H2 - (Hin + Q)) <= 1e-5 * recv.C, 'mix', f'second-run/{tag}', f'second mix_from on the same objects: H out {H2!r} != sum H in {Hin!r} + Q {Q!r} (first run gave {Hout!r})',
-                          residual=abs(H2 - (Hin + Q)) / recv.C)
+                H2 = R(recv, 'H', 'mix-receiver-second-run'); C2 = R(recv, 'C', 'mix-receiver-second-run')
+                rec.check(abs(H2 - (Hin + Q)) <= 1e-5 * C2, 'mix', f'second-run/{tag}', f'second mix_from on the same objects: H out {H2!r} != sum H in {Hin!r} + Q {Q!r} (first run gave {Hout!r})',
+                          residual=div(abs(H2 - (Hin + Q)), C2))
                 rec.check(recv.P == Pmin, 'mix:pressure', 'second-run/' + tag, f'second mix_from: P out {recv.P!r} != lowest pressure among the non-empty inlets {Pmin!r}')
             rec.hit('mix2')
             if len(in_phases) > 1: rec.hit('mix2:liquid+gas')
@@ -413,17 +619,18 @@ def run_case2(case, rec):
             if form == 'self':
                 T0 = a.T; P0 = a.P
                 a.separate_out(a, energy_balance=True)
-                rec.check(a.isempty() and a.H == 0, 'separate', 'self', f'a.separate_out(a) with energy balance leaves F_mol={a.F_mol!r}, H={a.H!r}')
+                rec.check(a.isempty() and not held(rows_of(a)) and R(a, 'H', 'separate-self') == 0, 'separate', 'self', f'a.separate_out(a) with energy balance leaves F_mol={a.F_mol!r}, H={a.H!r}')
                 rec.hit('sep2:self')
                 return
             if case['mkind'] == 'S': m = tmo.Stream(None, phase=case['mphase'], thermo=th)
             else: m = tmo.MultiStream(None, phases=('g', 'l'), thermo=th)
             if form == 'empty-other':
                 m.copy_like(a)
-                H0 = m.H; T0 = m.T
+                H0 = R(m, 'H', 'separate-mixture'); T0 = m.T
                 m.separate_out(b, energy_balance=True)
                 lo, hi = range_of(m)
-                rec.check(abs(m.T - T0) <= 1e-6 and abs(m.H - H0) <= 1e-5 * m.C, 'separate', 'empty-other', f'separating an empty stream out moved T {T0!r} -> {m.T!r}, H {H0!r} -> {m.H!r}', residual=abs(m.T - T0))
+                H1 = R(m, 'H', 'separate-remainder'); C1 = R(m, 'C', 'separate-remainder')
+                rec.check(abs(m.T - T0) <= 1e-6 and abs(H1 - H0) <= 1e-5 * C1, 'separate', 'empty-other', f'separating an empty stream out moved T {T0!r} -> {m.T!r}, H {H0!r} -> {H1!r}', residual=abs(m.T - T0))
                 rec.hit('sep2:empty-other')
                 return
             m.mix_from([a, b], energy_balance=True)
@@ -435,28 +642,28 @@ def run_case2(case, rec):
                 lob, hib = range_of(b)
                 if not (lob <= b.T <= hib): rec.refuse('the stream taken out is outside the model range of its phase at the mixture temperature'); return
                 rec.hit('sep2:same-T-P')
-            H0 = m.H; Hb = b.H
+            H0 = R(m, 'H', 'separate-mixture'); Hb = R(b, 'H', 'separate-other')
             tag = ('multi' if isinstance(m, tmo.MultiStream) else 'single') + '-phase-mixture/' + ('multi' if isinstance(b, tmo.MultiStream) else 'single') + '-phase-other' + ('/isub' if form == 'isub' else '')
             other_phase = not isinstance(m, tmo.MultiStream) and not isinstance(b, tmo.MultiStream) and b.phase != m.phase
-            # outside the quantifier: the enthalpy left over cannot be reached by what remains, in the phase(s) it is held in, inside the model range
-            try:
-                rem = m.copy(); rem.separate_out(b, energy_balance=False)
-                if rem.isempty(): rec.refuse('nothing left after separation'); return
-                lo, hi = range_of(rem)
-                rem.T = lo - 60; Hlo = rem.H; rem.T = hi + 80; Hhi = rem.H
-                reachable = Hlo < H0 - Hb < Hhi
-            except Exception:
-                reachable = False
+            tag2 = tag + ('/other-in-another-phase' if other_phase else '') + ('/same-T-P' if case.get('sameTP') else '')
+            # outside the quantifier: the enthalpy left over cannot be reached by what remains, in the phase(s) it is held in, inside the model range. Decided before the call from a twin
+            # separated without the energy balance (placement of the material) and the reference enthalpy of its raw rows; a failure of the twin is reported, not refused.
+            # a holds material and the mixture is a + b: what remains cannot be nothing
+            rem = m.copy(); rem.separate_out(b, energy_balance=False)
+            remrows = rows_of(rem)
+            if not rec.check(held(remrows), 'separate', 'nothing-left/without-energy-balance/' + tag2, f'separate_out(energy_balance=False) leaves nothing of a mixture of a and b after b is taken out (a: {case["a"]})'): return
+            lo, hi = range_rows(remrows)
+            reachable = ref(th, remrows, lo - 60, m.P, 'H')[0] < H0 - Hb < ref(th, remrows, hi + 80, m.P, 'H')[0]
             if not reachable: rec.refuse('temperature after separation outside the model range'); return
             if form == 'isub': m -= b
             else: m.separate_out(b, energy_balance=True)
-            if m.isempty(): rec.refuse('nothing left after separation'); return
-            H1 = m.H; C1 = m.C
+            if not rec.check(held(rows_of(m)), 'separate', 'nothing-left/' + tag2, f'separate_out with energy balance leaves nothing although the same call without the energy balance leaves {[(ph, sorted(r.items())) for ph, r in remrows]}'): return
+            H1 = R(m, 'H', 'separate-remainder'); C1 = R(m, 'C', 'separate-remainder')
             lo, hi = range_of(m)
-            if not (lo - 60 < m.T < hi + 80): rec.refuse('temperature after separation outside the model range'); return
+            if not rec.check(lo - 60 < m.T < hi + 80, 'separate', 'T-far-off/' + tag2, f'separate_out: T after {m.T!r} is outside ({lo - 60}, {hi + 80}) although what remains takes H before - H other = {H0 - Hb!r} inside this window'): return
             res = abs(H1 - (H0 - Hb))
-            rec.check(res <= 1e-5 * C1 + 1e-12 * abs(H0), 'separate', 'enthalpy/' + tag + ('/other-in-another-phase' if other_phase else '') + ('/same-T-P' if case.get('sameTP') else ''),
-                      f'separate_out: H after {H1!r} != H before {H0!r} - H other {Hb!r} (residual {res:.4g}, C {C1:.4g})', residual=res / C1)
+            rec.check(res <= 1e-5 * C1 + 1e-12 * abs(H0), 'separate', 'enthalpy/' + tag2,
+                      f'separate_out: H after {H1!r} != H before {H0!r} - H other {Hb!r} (residual {res:.4g}, C {C1:.4g})', residual=div(res, C1))
             rec.hit('sep2')
             if other_phase: rec.hit('sep2:other-in-another-phase')
             if isinstance(m, tmo.MultiStream) or isinstance(b, tmo.MultiStream): rec.hit('sep2:multi-phase')
@@ -465,14 +672,17 @@ def run_case2(case, rec):
         elif t == 'set2':
             s = mk2(th, case['s']); which = case['which']
             multi = isinstance(s, tmo.MultiStream)
-            lo, hi = range_of(s)
+            rows = rows_d(case['s']); ctx = {}
+            lo, hi = range_rows(rows)
             T0 = s.T
-            if not (lo <= T0 <= hi): rec.refuse('start temperature outside the common model range of the phases present'); return
-            if which == 'S' and not s_ok2(s): rec.refuse('ill-conditioned external heat-capacity integral: entropy clause not judged'); return
+            if not (lo <= case['s']['T'] <= hi): rec.refuse('start temperature outside the common model range of the phases present'); return
+            if which == 'S':
+                rec.hit('set-S:cases')
+                if not s_judged(rec, th, rows, case['s']['T']): rec.refuse('ill-conditioned external heat-capacity integral: entropy clause not judged'); return
             def at(T):
-                s.T = T; return getattr(s, which)
+                s.T = T; return R(s, which, 'at-a-given-T', ctx)
             vlo, vhi = at(lo), at(hi); s.T = T0
-            cur = getattr(s, which)
+            cur = R(s, which, 'at-a-given-T', ctx)
             ph0 = phases_of(s)
             if case['f'] in (0.0, 1.0): rec.hit('set2:target-at-end-of-range')
             if which == 'Hnet': rec.hit('set2:Hnet')
@@ -482,12 +692,13 @@ def run_case2(case, rec):
                 rec.hit('set-Hnet-current'); return
             target = vlo + case['f'] * (vhi - vlo)
             setattr(s, which, target)
-            back = getattr(s, which)
-            C = (s.C / s.F_mol if multi else s.Cn) if which == 'h' else s.C
+            back = R(s, which, 'after-assignment', ctx)
+            C = (R(s, 'C', 'after-assignment') / total(rows) if multi else R(s, 'Cn', 'after-assignment')) if which == 'h' else R(s, 'C', 'after-assignment')
             bound = 1e-5 * C if which in ('H', 'h', 'Hnet') else 1e-5 * C / s.T
             rec.check(abs(back - target) <= bound, 'set-' + which, 'read-back' + ('/multi' if multi else '') + ('/end-of-range' if case['f'] in (0.0, 1.0) else ''), f'{which} = {target!r} then reading gives {back!r} (T {T0} -> {s.T}; bound {bound:.3g})', residual=abs(back - target) / max(bound / 1e-5, 1e-300))
             rec.check(phases_of(s) == ph0, 'set-' + which, 'phase-changed', f'{which} assignment inside the range changed the phases {ph0} -> {phases_of(s)}')
             rec.check(lo - 1e-3 <= s.T <= hi + 1e-3, 'set-' + which, 'T-range', f'{which} target between the end values gave T={s.T} outside [{lo},{hi}]')
+            judge_T(rec, th, rows, s, which, target, lo, hi, ('/multi' if multi else '') + ('/end-of-range' if case['f'] in (0.0, 1.0) else ''), ctx)
             if abs(s.T - T0) >= 1: rec.mark_nontrivial(case_hash(case))
         else:
             which = case['which']
@@ -495,20 +706,23 @@ def run_case2(case, rec):
             for ph, row in case['rows'].items():
                 for i, v in zip(IDS, row):
                     if v: s.imol[ph, i] = v
-            nonempty = [ph for ph in s.phases if s.imol[ph].any()]
+            rows = [(ph, {i: v for i, v in enumerate(case['rows'][ph]) if v}) for ph in case['phases']]; ctx = {}
+            nonempty = [ph for ph, row in rows if row]
             rec.hit('multi-phase2')
             if len(nonempty) < len(s.phases): rec.hit('multi-phase2:empty-phase')
             if len(nonempty) == 1: rec.hit('multi-phase2:one-non-empty-phase')
             if len(s.phases) == 1: rec.hit('multi-phase2:one-phase')
             if 'L' in nonempty: rec.hit('multi-phase2:L')
-            if which == 'S' and not s_ok2(s): rec.refuse('ill-conditioned external heat-capacity integral: entropy clause not judged'); return
-            lo, hi = range_of(s)
+            if which == 'S':
+                rec.hit('set-S:cases')
+                if not s_judged(rec, th, rows, case['T']): rec.refuse('ill-conditioned external heat-capacity integral: entropy clause not judged'); return
+            lo, hi = range_rows(rows)
             T0 = s.T
-            if not (lo <= T0 <= hi): rec.refuse('start temperature outside the common model range of the phases present'); return
+            if not (lo <= case['T'] <= hi): rec.refuse('start temperature outside the common model range of the phases present'); return
             def at(T):
-                s.T = T; return getattr(s, which)
+                s.T = T; return R(s, which, 'at-a-given-T', ctx)
             vlo, vhi = at(lo), at(hi); s.T = T0
-            cur = getattr(s, which)
+            cur = R(s, which, 'at-a-given-T', ctx)
             ph0 = tuple(s.phases)
             kind = 'multi/' + ('one-non-empty-phase' if len(nonempty) == 1 else 'several-phases')
             if case['f'] in (0.0, 1.0): rec.hit('set2:target-at-end-of-range')
@@ -518,12 +732,13 @@ def run_case2(case, rec):
                 return
             target = vlo + case['f'] * (vhi - vlo)
             setattr(s, which, target)
-            back = getattr(s, which)
-            C = s.C if which != 'h' else s.C / s.F_mol
+            back = R(s, which, 'after-assignment', ctx)
+            C = R(s, 'C', 'after-assignment') if which != 'h' else R(s, 'C', 'after-assignment') / total(rows)
             bound = 1e-5 * C if which in ('H', 'h', 'Hnet') else 1e-5 * C / s.T
             rec.check(abs(back - target) <= bound, 'set-' + which, 'read-back/' + kind, f'multi-phase {ph0} (non-empty {nonempty}) {which} = {target!r} then reading gives {back!r} (T {T0} -> {s.T})', residual=abs(back - target) / max(bound / 1e-5, 1e-300))
             rec.check(lo - 1e-3 <= s.T <= hi + 1e-3, 'set-' + which, 'T-range/' + kind, f'multi-phase {which} target between the end values gave T={s.T} outside [{lo},{hi}]')
             rec.check(isinstance(s, tmo.MultiStream) and tuple(s.phases) == ph0, 'set-' + which, 'phase-changed/multi', f'{which} assignment changed the phases {ph0} -> {phases_of(s)}')
+            judge_T(rec, th, rows, s, which, target, lo, hi, '/' + kind, ctx)
             if abs(s.T - T0) >= 1: rec.mark_nontrivial(case_hash(case))
     except Exception as e:
         rec.exception(t.rstrip('2') if t != 'setm2' else 'setm', e, what=f'{t} case raised {type(e).__name__}: {str(e)[:160]}')
@@ -565,11 +780,11 @@ def run_case3(case, rec):
             which = case['which']; tag = which + ('/multi' if case['multi'] else '')
             try:
                 setattr(st, which, 0.0)
-                back = getattr(st, which); C = st.C
+                back = rd(rec, th, st, which, 'after-assignment/zero'); C = rd(rec, th, st, 'C', 'after-assignment/zero')
             except Exception as e:
                 rec.exception('set-zero', e, what=f'{which} = 0 raised {type(e).__name__}: {str(e)[:120]}'); return
             rec.hit('set-zero')
-            bound = 1e-5 * C if which == 'H' else 1e-5 * C / st.F_mol
+            bound = 1e-5 * C if which == 'H' else 1e-5 * C / sum(case['flows'])
             rec.check(abs(back) <= bound, 'set-' + which, 'read-back/zero/' + tag, f'{which} = 0 on a liquid stream at T={case["T"]}: reading gives {back!r}, T is {st.T!r} (expected 298.15)', residual=abs(back) / max(bound / 1e-5, 1e-300))
             rec.check(abs(st.T - 298.15) <= 1e-4, 'set-' + which, 'T/zero/' + tag, f'{which} = 0: T = {st.T!r}, the reference temperature is 298.15 K')
             rec.mark_nontrivial(case_hash(case))
@@ -579,13 +794,13 @@ def run_case3(case, rec):
             try:
                 if case['via'] == 'Q-cancels':
                     hot = liquid(case['ins'][0], min(case['T'] + 40, 370), case['P'])
-                    Q = -hot.H
+                    Q = -rd(rec, th, hot, 'H', 'mix-inlet')
                     recv.mix_from([hot], Q=Q)
                     exp = 0.0
                 else:
                     recv.mix_from(ins)
                     exp = 0.0
-                H = recv.H; C = recv.C
+                H = rd(rec, th, recv, 'H', 'mix-receiver/zero-total'); C = rd(rec, th, recv, 'C', 'mix-receiver/zero-total')
             except Exception as e:
                 rec.exception('mix-zero', e, what=f'mix_from with zero total enthalpy raised {type(e).__name__}: {str(e)[:120]}'); return
             rec.hit('mix-zero')
